@@ -3,6 +3,7 @@ import core, findings, docs
 from core import World, hx, Line, parse_fs
 from gen import Gen, mode_line, cfg_line
 from suites import run_suite, parse_snap, esc, exp_silent
+from suites import exp_one_error_no_write as suites_exp_one_error
 
 LEAN_MODULES = ['GoSnaps.Props.C18', 'GoSnaps.Props.Tie.Escape', 'GoSnaps.Props.Tie.Snapshot', 'GoSnaps.Props.Tie.SnapshotIO', 'GoSnaps.Props.Tie.Flows', 'GoSnaps.Props.Tie.Pipeline']
 
@@ -74,6 +75,10 @@ def make_world(g, tag):
         if ms:
             w.add('end %d' % (150 + j))
         w.add('end %d' % t)
+    # a Go value that has a String method (a logging helper, a generated stringer): still a Go value - marshalled
+    w.add('begin 60 %s' % hx(b'TestStringer'))
+    w.add('yaml 1 60 vstringer %s' % hx(b'billing'))
+    w.add('end 60')
     before = w.add('fsdump')
     w.add('begin 90 %s' % hx(b'TestBad'))
 
@@ -97,6 +102,9 @@ def make_world(g, tag):
             got = ents.get(b'TestY%d - 1' % n)
             if got != esc(d.encode()):
                 return 'stored YAML differs from the input (only whole `---` lines may be escaped): %r vs %r' % (got[:80] if got else None, d[:80])
+        sv = ents.get(b'TestStringer - 1')
+        if sv is None or b'name: billing' not in sv or b'hosts:' not in sv:
+            return 'a Go value with a String method is not stored as its marshalled document: %r' % (sv[:80] if sv else None)
         vs = [ents.get(b'TestV%d - 1' % j) for j in range(3)]
         if len(set(vs)) != 1 or vs[0] is None:
             return 'the same Go value was marshalled to different YAML texts'
@@ -125,6 +133,16 @@ def make_world(g, tag):
             return exp_silent(line, raw, ww)
         w.add('yaml 1 %d s %s' % (t, hx(d)), ('yaml-replays', exp))
         w.add('end %d' % t)
+        # ... and the same document with its final newline added / removed is another text: reported
+        d3 = d[:-1] if d.endswith('\n') else d + '\n'
+        w.add('begin %d %s' % (t + 400, hx(b'TestY%d' % n)))
+
+        def exp3(line, raw, ww, i=i):
+            if [k for k, _ in Line(ww.impl[i]).events] != ['L']:
+                return None
+            return suites_exp_one_error(line, raw, ww)
+        w.add('yaml 1 %d s %s' % (t + 400, hx(d3)), ('final-newline-is-compared', exp3))
+        w.add('end %d' % (t + 400))
     # the UPDATE path: the same calls with different documents while updating is enabled.  The new
     # document is stored exactly as given too (text that is a template for regexp.Expand, `%` verbs,
     # multi-document streams), every other entry keeps its text, and a read-only run replays it
